@@ -154,8 +154,63 @@ def jsonSig (v : SVal) : String :=
   else if (t.splitOn "F7ff").length > 1 || (t.splitOn "Ffff").length > 1 then "json-nonfinite-null"
   else "json-timestamp-key-capture"
 
+/-- FNV-1a over bytes: the digest both sides print for outputs too long for a line. -/
+def fnv (bs : List UInt8) : UInt64 :=
+  bs.foldl (fun h b => (h ^^^ b.toUInt64) * 0x100000001b3) 0xcbf29ce484222325
+
+def hex16 (x : UInt64) : String :=
+  let ds := (List.range 16).map (fun i => hexDigit ((x.toNat / 16 ^ (15 - i)) % 16))
+  String.ofList ds
+
+def zeroPad (w n : Nat) : String :=
+  let t := toString n
+  String.ofList (List.replicate (w - t.length) '0') ++ t
+
+/-- the large value of `ser big`: `n` elements, the LAST one different from the rest. -/
+def bigValue (kind : String) (n : Nat) : Option SVal :=
+  let last (i : Nat) : Bool := i + 1 == n
+  match kind with
+  | "list" => some (.list ((List.range n).map (fun i => .int (UInt64.ofNat (if last i then 99 else i % 7)))))
+  | "str" => some (.str ((List.range n).map (fun i => if last i then 'z'.toNat.toUInt8 else 'a'.toNat.toUInt8)))
+  | "bytes" => some (.bytes ((List.range n).map (fun i => if last i then 0xfe else UInt8.ofNat (i % 5))))
+  | "vec" => some (.vec ((List.range n).map (fun i => if last i then 0x40200000 else 0x3f800000)))
+  | "map" => some (.map ((List.range n).map (fun i =>
+      (("k" ++ zeroPad 6 i).toUTF8.toList, SVal.int (if last i then 99 else 1)))))
+  | _ => none
+
+def bigOut {α : Type} (bytes : List UInt8) (r : Res (α × List UInt8)) (same : α → Bool) (errs : Err → String) : String :=
+  let back := match r with
+    | .ok p => if same p.1 then "same" else "differs"
+    | .err e => errs e
+    | .panic => "panic"
+    | .abort => "abort:alloc"
+    | .fuel => "model-out-of-fuel"
+  let rest := match r with | .ok p => p.2.length | _ => 0
+  s!"len={bytes.length} fnv={hex16 (fnv bytes)} back={back} rest={rest}"
+
 def handle (args : List String) : Option Proto.Out :=
   match args with
+  | ["big", kind, n, fmt] => do
+    let n ← n.toNat?
+    let v ← bigValue kind n
+    match fmt with
+    | "spill" =>
+      let bytes := Spill.enc v
+      let m := bigOut bytes (Spill.decode bytes) (fun b => tok b == tok v) errStr
+      let s := s!"len={bytes.length} fnv={hex16 (fnv bytes)} back=same rest=0"
+      pure { model := m, spec := s, sig := if m == s then "-" else "spill-roundtrip" }
+    | "row" =>
+      let row := [SVal.int 1, v, SVal.int 2]
+      let bytes := Spill.encRow row
+      let m := bigOut bytes (Spill.decodeRow 3 bytes) (fun b => tokRow b == tokRow row) errStr
+      let s := s!"len={bytes.length} fnv={hex16 (fnv bytes)} back=same rest=0"
+      pure { model := m, spec := s, sig := if m == s then "-" else "spill-row-roundtrip" }
+    | "bin" =>
+      let bytes := Bin.enc v
+      let m := bigOut bytes (Bin.decode bytes) (fun b => tok b == tok v) binErrStr
+      let s := s!"len={bytes.length} fnv={hex16 (fnv bytes)} back=same rest=0"
+      pure { model := m, spec := s, sig := if m == s then "-" else "bincode-roundtrip" }
+    | _ => none
   | ["meta"] =>
     some { model := s!"value={sizeofValue} f32=4 keyval=32 isize_max={isizeMax}", spec := "-" }
   | ["spill", t] => do
